@@ -10,7 +10,7 @@ from vlib import core, dom, rescorr
 
 ID = "C20"
 GEN = ["plotting"]
-PROPS = ["C20_plots.v"]
+PROPS = ["C20_plots.v", "C20_helpers.v"]
 
 
 def coq_model(ctx, items):
